@@ -3,6 +3,12 @@
 
 package parsers
 
+import (
+	"encoding/hex"
+
+	vmcommon "github.com/ElrondNetwork/elrond-vm-common"
+)
+
 // Contracts for govc, the contract-based deductive verifier kept in /verif (see /verif/DESIGN.md).
 // Compiled only under the "verif" build tag. splitAt(s) is the mathematical result of
 // strings.Split(s, "@"); hex is hex.EncodeToString (lower case), unhex / isHex describe hex.DecodeString,
@@ -50,21 +56,58 @@ func lemmaParseWire(parser *callArgsParser, data string) (string, [][]byte, erro
 //@   requires forall(j, int, 0 <= j && j < len(storageUpdates) ==> storageUpdates[j] != nil)
 
 //@ func (parser *deployArgsParser) parseCode
+//@   results code, err
 //@   requires len(tokens) >= 3
+//@   ensures[C12] err == nil ==> seq(code) == unhex(seq(tokens[0])) && isHex(seq(tokens[0]))
+//@   ensures[C12] isHex(seq(tokens[0])) ==> err == nil
 //@ func (parser *deployArgsParser) parseVMType
+//@   results vmType, err
 //@   requires len(tokens) >= 3
+//@   ensures[C12] err == nil ==> seq(vmType) == unhex(seq(tokens[1])) && len(tokens[1]) > 0
+//@   ensures[C12] isHex(seq(tokens[1])) && len(tokens[1]) > 0 ==> err == nil
 //@ func (parser *deployArgsParser) parseCodeMetadata
+//@   results md, err
 //@   requires len(tokens) >= 3
+//@   ensures[C12] err == nil && len(unhex(seq(tokens[2]))) == 2 ==> md.Upgradeable == (unhex(seq(tokens[2]))[0] % 2 == 1) && md.Readable == ((unhex(seq(tokens[2]))[0] / 4) % 2 == 1) && md.Payable == ((unhex(seq(tokens[2]))[1] / 2) % 2 == 1)
+//@   ensures[C12] isHex(seq(tokens[2])) ==> err == nil
 
 //@ func (parser *deployArgsParser) parseArguments
 //@   results arguments, err
-//@   loop 0 invariant 3 <= i && arguments != nil && fresh(arguments)
+//@   loop 0 invariant 3 <= i && i <= len(tokens) && arguments != nil && fresh(arguments) && len(arguments) == i - 3
+//@   loop 0 invariant forall(j, int, 0 <= j && j < i - 3 ==> seq(arguments[j]) == unhex(seq(tokens[j + 3])))
 //@   requires len(tokens) >= 3
+//@   ensures[C12] err == nil ==> len(arguments) == len(tokens) - 3 && forall(j, int, 0 <= j && j < len(arguments) ==> seq(arguments[j]) == unhex(seq(tokens[j + 3])))
+//@   ensures[C12] forall(j, int, 3 <= j && j < len(tokens) ==> isHex(seq(tokens[j]))) ==> err == nil
 //@   modifies new([][]byte)
 
 //@ func (parser *deployArgsParser) ParseData
 //@   results r, err
+//@   view T = splitAt(seq(data))
 //@   ensures[C12] (err == nil ==> r != nil) && (err != nil ==> r == nil)
+//@   ensures[C12] err == nil ==> llen(T) >= 3 && seq(r.Code) == unhex(lnth(T, 0)) && seq(r.VMType) == unhex(lnth(T, 1)) && len(r.Arguments) == llen(T) - 3 && forall(j, int, 0 <= j && j < len(r.Arguments) ==> seq(r.Arguments[j]) == unhex(lnth(T, j + 3)))
+//@   ensures[C12] err == nil && len(unhex(lnth(T, 2))) == 2 ==> r.CodeMetadata.Upgradeable == (unhex(lnth(T, 2))[0] % 2 == 1) && r.CodeMetadata.Readable == ((unhex(lnth(T, 2))[0] / 4) % 2 == 1) && r.CodeMetadata.Payable == ((unhex(lnth(T, 2))[1] / 2) % 2 == 1)
+//@   ensures[C12] llen(T) >= 3 && len(lnth(T, 0)) > 0 && len(lnth(T, 1)) > 0 && forall(j, int, 0 <= j && j < llen(T) ==> isHex(lnth(T, j))) ==> err == nil
+//@   modifies new(parsers.DeployArgs), new([]string), new([][]byte)
+
+// lemmaDeployRoundTrip (C12): deploy data built in the documented format code@vmType@metadata@argument parses
+// back into the same code, VM type, metadata and argument
+func lemmaDeployRoundTrip(code []byte, vmType []byte, md vmcommon.CodeMetadata, a []byte) (*DeployArgs, error) {
+	rest := [][]byte{vmType, md.ToBytes(), a}
+	data := hex.EncodeToString(code)
+	for _, x := range rest {
+		data = data + "@" + hex.EncodeToString(x)
+	}
+	return NewDeployArgsParser().ParseData(data)
+}
+
+//@ func lemmaDeployRoundTrip
+//@   results r, err
+//@   requires len(code) > 0 && len(vmType) > 0
+//@   loop 0 invariant seq(data) == wire(hex(seq(code)), list(rest), rangeindex + 1) && rangeindex + 1 <= 3 && len(rest) == 3 && fresh(rest)
+//@   loop 0 invariant seq(rest[0]) == seq(vmType) && seq(rest[2]) == seq(a) && len(rest[1]) == 2 && seq(rest[1])[0] == ite(md.Upgradeable, 1, 0) + ite(md.Readable, 4, 0) && seq(rest[1])[1] == ite(md.Payable, 2, 0)
+//@   ensures[C12] err == nil && seq(r.Code) == seq(code) && seq(r.VMType) == seq(vmType) && len(r.Arguments) == 1 && seq(r.Arguments[0]) == seq(a)
+//@   ensures[C12] r.CodeMetadata.Upgradeable == md.Upgradeable && r.CodeMetadata.Readable == md.Readable && r.CodeMetadata.Payable == md.Payable
+//@   modifies new(parsers.DeployArgs), new([]string), new([][]byte)
 
 //@ func (parser *storageUpdatesParser) GetStorageUpdates
 //@   results r, err
